@@ -47,6 +47,8 @@ struct Baton {
     cv: Condvar,
 }
 
+static NEXT_TASK: std::sync::atomic::AtomicUsize = std::sync::atomic::AtomicUsize::new(1);
+
 lazy_static::lazy_static! {
     static ref BATON: Baton = Baton {
         m: Mutex::new(TaskSt { current: None, parked: BTreeMap::new(), finished: BTreeMap::new(), tags: vec![] }),
@@ -182,6 +184,25 @@ struct Sim {
     schedule: Vec<String>,
     sched_pos: usize,
     drift: usize,
+    trace_state: bool,
+    sup_dead: BTreeMap<String, bool>,
+}
+
+fn strip_id(line: &str) -> String {
+    // "rp <id> <inner>" -> "rp <inner>", "ack <id> <node>" -> "ack <node>"
+    let t = line.trim();
+    let mut p = t.splitn(3, ' ');
+    match p.next() {
+        Some("rp") => {
+            let _ = p.next();
+            format!("rp {}", p.next().unwrap_or("").trim())
+        }
+        Some("ack") => {
+            let _ = p.next();
+            format!("ack {}", p.next().unwrap_or("").trim())
+        }
+        _ => t.to_string(),
+    }
 }
 
 fn poll_once(f: &mut Pin<Box<dyn Future<Output = ()>>>) {
@@ -267,6 +288,13 @@ impl Sim {
                     }
                     Err(_) => break,
                 }
+            }
+        }
+        // `ok' reply lines are skipped by the dialling side (start_replication: "Ignoring ok message"):
+        // they are consumed here, without a scheduler step of their own
+        for l in self.links.iter_mut() {
+            while l.rsp.front().map(|m| m.trim() == "ok").unwrap_or(false) {
+                l.rsp.pop_front();
             }
         }
         // links the real code opened since the last step
@@ -365,8 +393,16 @@ impl Sim {
     /// Maps a model step ("repl:n1", "deliver:n1>n2", "reply:n1>n2") to an enabled simulator step.
     fn resolve(&self, want: &str, enabled: &Vec<String>) -> Option<String> {
         let (kind, arg) = want.split_once(':')?;
-        if kind == "repl" || kind == "sup" {
+        if kind == "repl" || kind == "sup" || kind == "client" {
             return enabled.iter().find(|e| *e == want).cloned();
+        }
+        if kind == "tick" {
+            for t in self.suspended() {
+                if self.origin(t) == arg {
+                    return Some(format!("tick:{}", t));
+                }
+            }
+            return None;
         }
         let (x, y) = arg.split_once('>')?;
         for e in enabled.iter() {
@@ -381,6 +417,118 @@ impl Sim {
             }
         }
         None
+    }
+
+    /// Model-level name of a task (who is running the blocked call).
+    fn origin(&self, tid: usize) -> String {
+        match self.tasks.get(&tid) {
+            Some(TaskKind::Deliver(lid)) => format!("L:{}>{}", self.links[*lid].from, self.links[*lid].to),
+            Some(TaskKind::Reply(lid)) => format!("R:{}>{}", self.links[*lid].from, self.links[*lid].to),
+            Some(TaskKind::ClientCmd(i)) => format!("client:{}", i),
+            Some(TaskKind::Disconnect(node, peer)) => {
+                if let Some(x) = peer.strip_prefix("join-from-") {
+                    format!("join:{}>{}", x, node)
+                } else if peer == "initial-election" {
+                    format!("init:{}", node)
+                } else {
+                    format!("disc:{}<{}", node, peer)
+                }
+            }
+            None => format!("task:{}", tid),
+        }
+    }
+
+    /// Model-level label of a simulator step (links by end points, tasks by origin).
+    fn label(&self, s: &str) -> String {
+        let (kind, arg) = s.split_once(':').unwrap_or((s, ""));
+        match kind {
+            "deliver" | "reply" => match arg.parse::<usize>() {
+                Ok(i) => format!("{}:{}>{}", kind, self.links[i].from, self.links[i].to),
+                Err(_) => s.to_string(),
+            },
+            "tick" => match arg.parse::<usize>() {
+                Ok(t) => format!("tick:{}", self.origin(t)),
+                Err(_) => s.to_string(),
+            },
+            _ => s.to_string(),
+        }
+    }
+
+    /// Projection of the control-plane state compared with the NunElect model after every step.
+    fn proj(&mut self) -> J {
+        self.collect();
+        let mut nodes = serde_json::Map::new();
+        for n in self.nodes.iter() {
+            let (mem, poisoned) = match n.node.dbs.cluster_state.lock() {
+                Ok(cs) => match cs.members.lock() {
+                    Ok(m) => {
+                        let mut v: Vec<(String, String, bool)> = m.values()
+                            .map(|x| (x.name.clone(), if x.role == ClusterRole::Primary { "P".to_string() } else { "S".to_string() }, x.sender.is_some()))
+                            .collect();
+                        v.sort();
+                        (v, false)
+                    }
+                    Err(_) => (vec![], true),
+                },
+                Err(_) => (vec![], true),
+            };
+            let mut pend: Vec<(u64, J)> = match n.node.dbs.pending_opps.read() {
+                Ok(p) => p.values().map(|m| {
+                    let mut reps: Vec<(String, bool)> = m.replications.lock().map(|r| r.iter().map(|(k, v)| (k.clone(), *v)).collect()).unwrap_or_default();
+                    reps.sort();
+                    (m.opp_id, json!({"rc": m.replicate_count.load(std::sync::atomic::Ordering::Relaxed),
+                                      "ac": m.ack_count.load(std::sync::atomic::Ordering::Relaxed),
+                                      "reps": reps.iter().map(|(k, v)| json!([k, v])).collect::<Vec<J>>()}))
+                }).collect(),
+                Err(_) => vec![],
+            };
+            pend.sort_by_key(|x| x.0);
+            nodes.insert(n.name.clone(), json!({
+                "alive": n.alive,
+                "role": format!("{}", n.node.dbs.get_role()),
+                "mem": mem.iter().map(|(a, b, c)| json!([a, b, c])).collect::<Vec<J>>(),
+                "poisoned": poisoned,
+                "pend": pend.into_iter().map(|x| x.1).collect::<Vec<J>>(),
+                "replq": n.repl_q.iter().map(|m| strip_id(m)).collect::<Vec<String>>(),
+                "supq": n.sup_q.iter().cloned().collect::<Vec<String>>(),
+                "supdead": self.sup_dead.get(&n.name).cloned().unwrap_or(false),
+            }));
+        }
+        let mut links = vec![];
+        for l in self.links.iter() {
+            let tag: J = match &l.ysess {
+                Some(s) => match s.try_lock() {
+                    Ok(s) => match s.client.cluster_member.try_lock() {
+                        Ok(m) => match &*m {
+                            Some(m) => json!([m.name, if m.role == ClusterRole::Primary { "P" } else { "S" }]),
+                            None => json!([]),
+                        },
+                        Err(_) => json!(["?"]),
+                    },
+                    Err(_) => json!(["busy"]),
+                },
+                None => json!([]),
+            };
+            let mut q: Vec<String> = l.handshake.iter().map(|m| strip_id(m)).collect();
+            q.extend(l.req.iter().map(|m| strip_id(m)));
+            links.push(json!({"from": l.from, "to": l.to, "open": l.open, "q": q,
+                              "rsp": l.rsp.iter().map(|m| strip_id(m)).collect::<Vec<String>>(),
+                              "tag": tag, "busy": l.ybusy.is_some(), "sess": l.ysess.is_some()}));
+        }
+        let parked: Vec<J> = {
+            let st = BATON.m.lock().unwrap();
+            let mut v: Vec<(String, String)> = st.parked.iter().map(|(t, site)| (self.origin(*t), site.clone())).collect();
+            v.sort();
+            v.iter().map(|(a, b)| json!([a, b])).collect()
+        };
+        json!({"nodes": nodes, "links": links, "parked": parked})
+    }
+
+    fn emit_state(&mut self, label: &str) {
+        if self.trace_state {
+            let p = self.proj();
+            self.emit(json!({"ev":"st","step":label,"st":p}));
+        }
     }
 
     fn suspended(&self) -> Vec<usize> {
@@ -421,8 +569,10 @@ impl Sim {
     }
 
     fn new_task(&mut self, kind: TaskKind) -> usize {
-        let t = self.next_task;
-        self.next_task += 1;
+        // task ids are unique over the whole process: a thread left parked by a run that ended
+        // without going quiet must never be mistaken for a task of a later run
+        let t = NEXT_TASK.fetch_add(1, std::sync::atomic::Ordering::SeqCst);
+        self.next_task = t + 1;
         self.tasks.insert(t, kind);
         t
     }
@@ -452,12 +602,16 @@ impl Sim {
                 if self.nodes[i].sup_tx.try_send(m.clone()).is_err() {
                     // the supervisor loop ended earlier (it panicked): the command is lost
                     let name = self.nodes[i].name.clone();
+                    self.sup_dead.insert(name.clone(), true);
                     self.emit(json!({"ev":"sup","node":name,"msg":m,"panic":false,"dead":true}));
                     return Ok(());
                 }
                 let f = &mut self.nodes[i].sup_fut;
                 let r = catch_unwind(AssertUnwindSafe(|| poll_once(f)));
                 let name = self.nodes[i].name.clone();
+                if r.is_err() {
+                    self.sup_dead.insert(name.clone(), true);
+                }
                 self.emit(json!({"ev":"sup","node":name,"msg":m,"panic":r.is_err()}));
                 self.settle_links()?;
             }
@@ -749,7 +903,8 @@ pub fn run_case(case: &J, workdir: &str, out: &mut dyn Write, n: usize) -> Resul
     NEW_LINKS.lock().unwrap().clear();
     let mut sim = Sim { nodes: vec![], links: vec![], tasks: BTreeMap::new(), next_task: 1, out: vec![], run: id.clone(),
                         sent: 0, user: "admin".to_string(), pwd: "adminpwd".to_string(),
-                        schedule: vec![], sched_pos: 0, drift: 0 };
+                        schedule: vec![], sched_pos: 0, drift: 0,
+                        trace_state: case["trace_state"].as_bool() == Some(true), sup_dead: BTreeMap::new() };
     let empty = vec![];
     let names: Vec<String> = case["nodes"].as_array().unwrap_or(&empty).iter().map(|x| x.as_str().unwrap().to_string()).collect();
     let base = format!("{}/cl-{}-{}", workdir, std::process::id(), n);
@@ -795,6 +950,7 @@ pub fn run_case(case: &J, workdir: &str, out: &mut dyn Write, n: usize) -> Resul
                         sim.emit(json!({"ev":"suspended","task":tid}));
                     }
                     sim.settle_links()?;
+                    sim.emit_state(&format!("join:{}>{}", x, y));
                 }
             }
         }
@@ -811,11 +967,17 @@ pub fn run_case(case: &J, workdir: &str, out: &mut dyn Write, n: usize) -> Resul
             let mut from_schedule: Option<String> = None;
             while !en.is_empty() && from_schedule.is_none() && sim.sched_pos < sim.schedule.len() {
                 let want = sim.schedule[sim.sched_pos].clone();
-                if want.starts_with("client:") {
+                if want.starts_with("client:") && !en.contains(&want) {
                     // the model issues the next command only at quiescence: the simulator still has
                     // something to deliver that the model did not expect
                     sim.drift += 1;
                     break;
+                }
+                if want.starts_with("tick:") {
+                    // the model lets a timer fire only when nothing can be delivered
+                    sim.drift += 1;
+                    sim.sched_pos += 1;
+                    continue;
                 }
                 sim.sched_pos += 1;
                 let resolved = sim.resolve(&want, &en);
@@ -834,13 +996,29 @@ pub fn run_case(case: &J, workdir: &str, out: &mut dyn Write, n: usize) -> Resul
                 if sus.is_empty() {
                     return Ok(true);
                 }
-                let t = if policy == "random" { sus[(rng.next() % sus.len() as u64) as usize] } else { sus[0] };
-                format!("tick:{}", t)
+                let mut from_sched: Option<String> = None;
+                if sim.sched_pos < sim.schedule.len() && sim.schedule[sim.sched_pos].starts_with("tick:") {
+                    let want = sim.schedule[sim.sched_pos].clone();
+                    sim.sched_pos += 1;
+                    from_sched = sim.resolve(&want, &vec![]);
+                    if from_sched.is_none() {
+                        sim.drift += 1;
+                    }
+                }
+                match from_sched {
+                    Some(s) => s,
+                    None => {
+                        let t = if policy == "random" { sus[(rng.next() % sus.len() as u64) as usize] } else { sus[0] };
+                        format!("tick:{}", t)
+                    }
+                }
             };
             if pick.starts_with("client:") {
                 *next_client += 1;
             }
+            let label = sim.label(&pick);
             sim.step(&pick, case)?;
+            sim.emit_state(&label);
             *steps += 1;
         }
     };
@@ -848,6 +1026,8 @@ pub fn run_case(case: &J, workdir: &str, out: &mut dyn Write, n: usize) -> Resul
     let policy = case["policy"].as_str().unwrap_or("fifo").to_string();
     let form_policy = case["formation_policy"].as_str().unwrap_or("fifo").to_string();
     let mut next_client = ops.len(); // no client command during formation
+    sim.schedule = case["form_schedule"].as_array().unwrap_or(&empty).iter().map(|s| s.as_str().unwrap_or("").to_string()).collect();
+    sim.sched_pos = 0;
     let mut quiet = run_until_quiet(&mut sim, &mut rng, &form_policy, &mut steps, &mut next_client, ops.len(), case, false)?;
     if form == "join" && quiet {
         // start_inital_election: one second after start-up a node that is still eligible runs an election
@@ -857,6 +1037,9 @@ pub fn run_case(case: &J, workdir: &str, out: &mut dyn Write, n: usize) -> Resul
                 let dbs = sim.nodes[i].node.dbs.clone();
                 let dir = sim.nodes[i].node.dir.clone();
                 let tid = sim.new_task(TaskKind::Disconnect(name.clone(), "initial-election".to_string()));
+                if sim.sched_pos < sim.schedule.len() && sim.schedule[sim.sched_pos] == format!("init:{}", name) {
+                    sim.sched_pos += 1;
+                }
                 sim.emit(json!({"ev":"initial_election","node":name}));
                 let r = run_task(tid, dir, move || {
                     nundb::election_ops::start_election(&dbs);
@@ -867,6 +1050,7 @@ pub fn run_case(case: &J, workdir: &str, out: &mut dyn Write, n: usize) -> Resul
                 } else {
                     sim.emit(json!({"ev":"suspended","task":tid}));
                 }
+                sim.emit_state(&format!("init:{}", name));
                 let mut nc = ops.len();
                 quiet = run_until_quiet(&mut sim, &mut rng, &form_policy, &mut steps, &mut nc, ops.len(), case, false)?;
             }
@@ -874,7 +1058,9 @@ pub fn run_case(case: &J, workdir: &str, out: &mut dyn Write, n: usize) -> Resul
     }
     let st = sim.snapshot_state();
     let sent0 = sim.sent;
-    sim.emit(json!({"ev":"formed","quiet":quiet,"state":st,"steps":steps}));
+    let (fdrift, fused) = (sim.drift, sim.sched_pos);
+    sim.schedule = vec![];
+    sim.emit(json!({"ev":"formed","quiet":quiet,"state":st,"steps":steps,"drift":fdrift,"schedule_used":fused}));
     // ---- the explored part
     next_client = 0;
     let schedule: Vec<String> = case["schedule"].as_array().unwrap_or(&empty).iter().map(|s| s.as_str().unwrap_or("").to_string()).collect();
@@ -899,6 +1085,7 @@ pub fn run_case(case: &J, workdir: &str, out: &mut dyn Write, n: usize) -> Resul
                 sim.sched_pos += 1;
             }
             sim.step(&format!("client:{}", i), case)?;
+            sim.emit_state(&format!("client:{}", i));
             steps += 1;
             let mut nc = ops.len();
             let q = run_until_quiet(&mut sim, &mut rng, &policy, &mut steps, &mut nc, ops.len(), case, false)?;
